@@ -671,8 +671,8 @@ func exhaustiveC11(thorough bool, emit func(C11Case) bool) {
 		long := map[string]string{
 			"fasta":  ">a\nAC\n>" + pad(1) + "\n" + pad(0) + "\n>b\nGT\n",
 			"fastq":  "@a\nAC\n+\nII\n@b\n" + pad(0) + "\n+\n" + strings.Repeat("I", n) + "\n@" + pad(1) + "\nG\n+\nJ\n",
-			"sam":    "q1\t0\tr\t+1\t2\tM\t=\t4\t5\tA\tI\n" + "q2\t0\tr\t+7\t2\tM\t=\t4\t5\tA\tI\tXX:Z:" + pad(31) + "\n" + "q2\t0\tr\t+7\t2\tM\t=\t4\t5\tA\tI\tXX:Z:" + pad(30) + "\nq3\t0\tr\t1\t2\tM\t=\t4\t5\tA\tI\n",
-			"samh":   "@CO\t" + pad(4) + "\nq2\t0\tr\t+7\t2\tM\t=\t4\t5\tA\tI\tXX:Z:" + pad(30) + "\n",
+			"sam":    "q1\t0\tr\t+1\t2\tM\t=\t4\t5\tA\tI\n" + "q2\t0\tr\t+7\t2\tM\t=\t4\t5\tA\tI\tXX:Z:" + pad(29) + "\n" + "q2\t0\tr\t+7\t2\tM\t=\t4\t5\tA\tI\tXX:Z:" + pad(28) + "\nq3\t0\tr\t1\t2\tM\t=\t4\t5\tA\tI\n",
+			"samh":   "@CO\t" + pad(4) + "\nq2\t0\tr\t+7\t2\tM\t=\t4\t5\tA\tI\tXX:Z:" + pad(28) + "\n",
 			"bed":    "c\t+1\t2\tn\nc\t+1\t2\t" + pad(7) + "\nc\t+1\t2\t" + pad(6) + "\nd\t3\t4\tm\n",
 			"newick": "(a,b)c;\n(" + pad(6) + ",b)d;\n(" + pad(7) + ":+1,b)d;\n(e)f;\n",
 		}
